@@ -549,7 +549,9 @@ class Interp:
             if it.card == "many":
                 raise self.err(node, "abstract collection iterated in an unsupported context")
             return list(it.members)
-        if isinstance(it, (list, tuple)):
+        if isinstance(it, (list, tuple, frozenset, set)):
+            return list(it)
+        if isinstance(it, str):
             return list(it)
         if isinstance(it, dict):
             return list(it.keys())
@@ -1132,8 +1134,10 @@ class Interp:
                 return o
             if attr == "copy":
                 return _Const(TV(o.t, o.rank, True, ""))
-            if attr in ("size", "size1"):
-                raise self.err(node, f"attribute {attr} of a symbolic value")
+            if self.world is not None:
+                r = self.world.getattr(self, o, attr, node)
+                if r is not NotImplemented:
+                    return r
             raise self.err(node, f"attribute {attr} of a symbolic value")
         if isinstance(o, dict):
             if attr in ("get", "items", "keys", "values", "update", "pop", "setdefault", "copy", "clear"):
@@ -1205,7 +1209,14 @@ class Interp:
         if isinstance(c, TV):
             if isinstance(k, int) and not isinstance(k, bool):
                 if k not in (0, -1):
-                    raise self.err(n, f"index {k} into a symbolic vector (only 0 / -1 are modelled)")
+                    try:
+                        known = E.seglen(E.shape(c.t, self.world.env if self.world else E.Env()),
+                                         self.world.env if self.world else E.Env())
+                    except E.ShapeError:
+                        known = None
+                    if known is None:
+                        raise self.err(n, f"index {k} into a symbolic vector of abstract length "
+                                          "(only 0 / -1 are modelled)")
                 if c.rank == 0 and self.lib == "numpy":
                     self.event("rank-index", n, f"indexing a scalar `{short(n, 40)}` ({E.fmt(c.t, 60)})")
                 out = TV(E.idx(c.t, k), 0, True, c.origin)
@@ -1248,23 +1259,32 @@ class Interp:
         return d
 
     def _comp(self, n, fr, body):
-        if len(n.generators) != 1:
-            raise self.err(n, "nested comprehension")
-        g = n.generators[0]
-        it = self.eval(g.iter, fr)
         sub = Frame(fr.fi, dict(fr.env), fr.defcls, fr.self_obj)
+        if "__yield__" in sub.env:
+            del sub.env["__yield__"]
         out = []
-        if isinstance(it, Coll) and it.card == "many":
-            self.assign(g.target, it.members[0], sub)
-            for c in g.ifs:
-                if not self.truth(self.eval(c, sub), c, sub):
-                    raise self.err(n, "filter on the generic member of an abstract collection")
-            v = body(sub)
-            return [FamItem(it.domain, v)]
-        for x in self.iterate(it, g.iter, fr):
-            self.assign(g.target, x, sub)
-            if all(self.truth(self.eval(c, sub), c, sub) for c in g.ifs):
+
+        def rec(i):
+            if i == len(n.generators):
                 out.append(body(sub))
+                return
+            g = n.generators[i]
+            it = self.eval(g.iter, sub)
+            if isinstance(it, Coll) and it.card == "many":
+                if len(n.generators) != 1:
+                    raise self.err(n, "nested comprehension over an abstract collection")
+                self.assign(g.target, it.members[0], sub)
+                for c in g.ifs:
+                    if not self.truth(self.eval(c, sub), c, sub):
+                        raise self.err(n, "filter on the generic member of an abstract collection")
+                out.append(FamItem(it.domain, body(sub)))
+                return
+            for x in self.iterate(it, g.iter, sub):
+                self.assign(g.target, x, sub)
+                if all(self.truth(self.eval(c, sub), c, sub) for c in g.ifs):
+                    rec(i + 1)
+
+        rec(0)
         return out
 
     # ------------------------------------------------------------------ calls
